@@ -13,10 +13,25 @@ func DeepCast(val Value, typ ast.Type, span errors.Span, allowCasts bool) (*Valu
 	res, i := deepCast(val, typ, span, allowCasts)
 	if i != nil {
 		if runtimeErr, isRuntimeErr := (*i).(RuntimeErr); isRuntimeErr && runtimeErr.ErrKind == CastErrorKind {
-			return nil, NewThrowInterrupt(runtimeErr.Span, fmt.Sprintf("Cast error: %s", runtimeErr.MessageInternal))
+			// Like on the VM, the message names the path of the offending value.
+			location := ""
+			if runtimeErr.CastPath != "" {
+				location = fmt.Sprintf(" at `%s`", runtimeErr.CastPath)
+			}
+			return nil, NewThrowInterrupt(runtimeErr.Span, fmt.Sprintf("Cast error%s: %s", location, runtimeErr.MessageInternal))
 		}
 	}
 	return res, i
+}
+
+// Prepends a path component to a cast error which comes up from a nested value.
+func castErrorInside(i *Interrupt, component string) *Interrupt {
+	if runtimeErr, isRuntimeErr := (*i).(RuntimeErr); isRuntimeErr && runtimeErr.ErrKind == CastErrorKind {
+		runtimeErr.CastPath = component + runtimeErr.CastPath
+		inner := Interrupt(runtimeErr)
+		return &inner
+	}
+	return i
 }
 
 // TODO: set maximum recursion here
@@ -40,7 +55,7 @@ func deepCast(val Value, typ ast.Type, span errors.Span, allowCasts bool) (*Valu
 
 			innerCast, i := deepCast(valInner, typInner, span, allowCasts)
 			if i != nil {
-				return nil, i
+				return nil, castErrorInside(i, "<option-inner>")
 			}
 			return NewValueOption(innerCast), nil
 		}
@@ -168,7 +183,7 @@ func deepCast(val Value, typ ast.Type, span errors.Span, allowCasts bool) (*Valu
 					if key == otherField.FieldName.Ident() {
 						newField, i := deepCast(*field, otherField.Type, span, allowCasts)
 						if i != nil {
-							return nil, i
+							return nil, castErrorInside(i, "."+key)
 						}
 						outputFields[key] = newField
 						found = true
@@ -210,10 +225,10 @@ func deepCast(val Value, typ ast.Type, span errors.Span, allowCasts bool) (*Valu
 			asType := typ.(ast.ListType)
 
 			outputList := make([]*Value, 0)
-			for _, item := range *listVal.Values {
+			for index, item := range *listVal.Values {
 				newVal, i := deepCast(*item, asType.Inner, span, allowCasts)
 				if i != nil {
-					return nil, i
+					return nil, castErrorInside(i, fmt.Sprintf("[%d]", index))
 				}
 				outputList = append(outputList, newVal)
 			}
